@@ -56,7 +56,7 @@ ASSUMPTIONS = [
     '--triples output is compared token for token; it is excluded from the feed-back clause because the tool cannot read it.',
     'Generated inputs avoid :subset/:superset/include-91 (ambiguous AMR reification, finding F4, judged under C12).',
 ]
-PROBES = ['encoding_option', 'stdin_input', 'multi_file', 'triples_mode', 'normal_form_checked', 'format_pair_checked',
+PROBES = ['same_file_twice', 'encoding_option', 'stdin_input', 'multi_file', 'triples_mode', 'normal_form_checked', 'format_pair_checked',
           'identity_checked', 'reconfigure', 'rearrange', 'make_variables', 'reify_edges', 'dereify_edges',
           'reify_attributes', 'indicate_branches', 'canonicalize_roles', 'random_key_constant_stream',
           'model_file', 'subprocess_crosscheck', 'pipeline_mode', 'verbose']
@@ -122,6 +122,7 @@ def plan(rng, idx, tier):
         'mixseed': srng.randrange(1 << 30),
         'read_plan': io_plan(rng.sub('rio'), rng.sub('rio?').chance(0.5)),
         'write_plan': io_plan(rng.sub('wio'), rng.sub('wio?').chance(0.5)),
+        'repeat_file': (srng.randrange(3) if (nfiles >= 1 and srng.chance(0.15)) else None),
         'subprocess': (idx % 300 == 11),
         'pipeline': (idx % 25 == 3),
         'pipe': {'capacity': rng.sub('pipe').pick([1, 2, 7, 16, 64]), 'sched_seed': rng.sub('pipe2').randrange(1 << 30),
@@ -150,6 +151,15 @@ def split_sources(trace):
         t = gtext.build_text(p, trace['style'])
         texts.append(gtext.apply_newlines(t, nl, Rng(trace.get('mixseed', 0) + i)))
     return stdin, texts
+
+
+def file_order(trace, n):
+    """Indices of the files on the command line; a file may be named twice."""
+    order = list(range(n))
+    rep = trace.get('repeat_file')
+    if rep is not None and n:
+        order.append(rep % n)
+    return order
 
 
 class _ConstRandom:
@@ -184,7 +194,8 @@ def run_tool(spec, opts, stdin, texts, trace, k, res, tag):
         for i, t in enumerate(texts):
             files[f'/sim/in{i}.penman'] = t.encode(enc)
             plans[f'/sim/in{i}.penman'] = trace.get('read_plan')
-            argv.append(f'/sim/in{i}.penman')
+        argv += [f'/sim/in{i}.penman' for i in file_order(trace, len(texts))] if tag == 'tool' or tag == 'tool-format2' \
+            else [f'/sim/in{i}.penman' for i in range(len(texts))]
     import penman.model as pmodel
     rnd = _ConstRandom() if uses_random(opts) else None
     if rnd:
@@ -243,7 +254,10 @@ def execute(trace):
     if opts.get('triples'):
         res.hit('probe.triples_mode')
 
-    expected, rexc = ref_run(texts, model, opts)
+    seq = texts if stdin else [texts[i] for i in file_order(trace, len(texts))]
+    if len(seq) > len(texts):
+        res.hit('probe.same_file_twice')
+    expected, rexc = ref_run(seq, model, opts)
     argv, r = run_tool(spec, opts, stdin, texts, trace, k, res, 'tool')
     detail = {'argv': argv, 'sources': texts}
 
@@ -265,7 +279,7 @@ def execute(trace):
     elif r.stdout_error is not None:
         res.violate('pipeline', 'stdout-error', error=digest.canon_exc(r.stdout_error), **detail)
     else:
-        ok = compare_with_pipeline(r, expected, opts, res, detail, out_detail, ngraphs=len(trace['graphs']))
+        ok = compare_with_pipeline(r, expected, opts, res, detail, out_detail, ngraphs=_ngraphs(trace, stdin, texts))
         if r.exit != 0:
             res.violate('exit', 'nonzero-without-check', got=r.exit, **detail, **out_detail(r))
 
@@ -275,7 +289,7 @@ def execute(trace):
         if not norm:
             res.hit('probe.identity_checked')
             try:
-                gin = [g for t in texts for g in decode_all(t, model)]
+                gin = [g for t in seq for g in decode_all(t, model)]
                 gout = decode_all(r.stdout, model)
                 a = [_content(g) for g in gin]
                 b = [_content(g) for g in gout]
@@ -315,8 +329,8 @@ def execute(trace):
                             stderr=r3.stderr[-1200:], **detail)
             elif r3.stdout_bytes != r.stdout_bytes:
                 res.violate('normal_form', 'output-not-a-fixed-point', first=r.stdout[:3000],
-                            second=r3.stdout[:3000], nfiles=0 if stdin else len(texts),
-                            only_file_boundary_separators_differ=_boundary_only(r.stdout, r3.stdout, texts, stdin),
+                            second=r3.stdout[:3000], nfiles=0 if stdin else len(seq),
+                            only_file_boundary_separators_differ=_boundary_only(r.stdout, r3.stdout, seq, stdin),
                             duplicate_triples=_dup_flags(texts, r.stdout, model),
                             input_has_inverted_attribute=_has_inverted_attribute(texts, model, spec),
                             first_has_normalisable_role=_has_normalisable_role(r.stdout, spec),
@@ -402,6 +416,21 @@ def _has_normalisable_role(text, spec):
     return False
 
 
+def _ngraphs(trace, stdin, texts):
+    """number of graphs written into the input, counting a file named twice twice"""
+    n = trace.get('nfiles', 0)
+    graphs = trace['graphs']
+    if stdin or n <= 1:
+        parts = [graphs]
+    else:
+        cuts = sorted(min(c, len(graphs)) for c in trace.get('cuts', []))[:n - 1]
+        bounds = [0] + cuts + [len(graphs)]
+        parts = [graphs[bounds[i]:bounds[i + 1]] for i in range(len(bounds) - 1)]
+    if stdin:
+        return len(graphs)
+    return sum(len(parts[i]) for i in file_order(trace, len(parts)))
+
+
 def _content(g):
     return {'top': g.top, 'triples': sorted(digest.dumps(digest.canon_triple(t)) for t in g.triples),
             'metadata': [[a, b] for a, b in g.metadata.items()]}
@@ -474,7 +503,8 @@ def pipeline_mode(trace, spec, opts, stdin, texts, r, res, detail):
         from ..seams import pipeline
     except ImportError:
         return
-    out = pipeline.run_pair(spec, opts, stdin, texts, trace.get('pipe') or {}, res)
+    out = pipeline.run_pair(spec, opts, stdin, texts, trace.get('pipe') or {}, res,
+                            order=None if stdin else file_order(trace, len(texts)))
     if out is None:
         return
     res.hit('probe.pipeline_mode')
@@ -526,7 +556,7 @@ def shrink(trace):
 
 
 def _known_multifile_separator(trace, v):
-    return (v.sig == 'normal_form:output-not-a-fixed-point' and trace.get('nfiles', 0) >= 2
+    return (v.sig == 'normal_form:output-not-a-fixed-point' and v.detail.get('nfiles', 0) >= 2
             and v.detail.get('only_file_boundary_separators_differ') is True)
 
 
